@@ -29,11 +29,24 @@ type psSite struct {
 }
 
 type psShared struct {
-	p     *psPkgs
-	sites []psSite
-	names map[string]int
-	opq   int
-	errs  []string
+	p      *psPkgs
+	sites  []psSite
+	names  map[string]int
+	opq    int
+	errs   []string
+	queue  []string // functions to walk, in discovery order
+	queued map[string]bool
+}
+
+func (sh *psShared) enqueue(k string) {
+	if k == "" || sh.queued[k] {
+		return
+	}
+	if fd := sh.p.funcs[k]; fd == nil || fd.Body == nil {
+		return
+	}
+	sh.queued[k] = true
+	sh.queue = append(sh.queue, k)
 }
 
 type psWalker struct {
@@ -309,6 +322,15 @@ func (w *psWalker) callType(c *ast.CallExpr, i int) psType {
 	if w.isTypeExpr(c.Fun) && len(c.Args) == 1 {
 		return psType{c.Fun, w.pkg}
 	}
+	if sel, ok := c.Fun.(*ast.SelectorExpr); ok && w.calleeKey(c) == "" && i == 0 {
+		// results of the few external (memberlist keyring) methods whose slices are indexed or ranged over
+		switch sel.Sel.Name {
+		case "GetKeys":
+			return psType{&ast.ArrayType{Elt: &ast.ArrayType{Elt: ast.NewIdent("byte")}}, w.pkg}
+		case "GetPrimaryKey":
+			return psType{&ast.ArrayType{Elt: ast.NewIdent("byte")}, w.pkg}
+		}
+	}
 	if k := w.calleeKey(c); k != "" {
 		fd := p.funcs[k]
 		if fd.Type.Results != nil {
@@ -374,6 +396,12 @@ func (w *psWalker) term(e ast.Expr, sub *[]string) string {
 				return w.term(x.Args[0], sub)
 			}
 		}
+		// e.EventType(): a pure getter of the event's kind, modelled as an attribute of e
+		if sel, ok := x.Fun.(*ast.SelectorExpr); ok && len(x.Args) == 0 && sel.Sel.Name == "EventType" {
+			if k := key(sel.X); k != "" {
+				return w.lv("v", k+".EventType")
+			}
+		}
 	case *ast.BinaryExpr:
 		switch x.Op {
 		case token.ADD, token.SUB, token.MUL, token.QUO, token.REM:
@@ -423,6 +451,10 @@ func (w *psWalker) cond(e ast.Expr) string {
 			return "False"
 		}
 		return w.lv("v", x.Name) + " = 1"
+	case *ast.SelectorExpr:
+		if k := key(x); k != "" && w.sh.p.kind(w.typeOf(x)) == "bool" {
+			return w.lv("v", k) + " = 1"
+		}
 	case *ast.BinaryExpr:
 		switch x.Op {
 		case token.LAND:
